@@ -4,8 +4,8 @@
 import json, os, re, shutil, sys
 prop, var, caught = sys.argv[1], sys.argv[2], sys.argv[3]
 needs = " ".join(sys.argv[4:])
-src = "/tmp/seed-out/%s/%s" % (prop, var)
-dst = "/verif/seeded/%s-%s" % (prop, var)
+src = "%s/%s/%s" % (os.environ.get("SEEDSRC", "/tmp/seed-out"), prop, var)
+dst = "/verif/seeded/%s-%s" % (prop, os.environ.get("SEEDNAME", var))
 os.makedirs(dst, exist_ok=True)
 for f in os.listdir(src):
     if f in ("patch.diff", "notes.md", "build_and_run.sh") or f.startswith("demo"):
@@ -23,7 +23,7 @@ if os.path.exists(p):
     ct = {"summary": m.group(0) if m else "", "failed": failed}
 meta = {
     "property": prop,
-    "variant": var,
+    "variant": os.environ.get("SEEDNAME", var),
     "origin": "fresh sub-agent given only the property text and a scratch worktree of /repo",
     "needs_to_manifest": needs,
     "confirmed_by_me": {
